@@ -15,8 +15,9 @@ import (
 
 // Limits bounds generated sizes; the thorough tier uses larger ones.
 type Limits struct {
-	MaxBlob   int // cap on generated string / blob lengths
-	MaxJSONKB int // cap on large-format padding
+	MaxBlob   int  // cap on generated string / blob lengths
+	MaxJSONKB int  // cap on large-format padding
+	SmallJSON bool // no >= 64 KiB documents (format bit forcing is still used)
 }
 
 // Quick and Thorough limits.
